@@ -102,7 +102,7 @@ class Scenario:
         self.sim.settle()
 
 
-def explore(make, triggers, leaf, max_leaves=100000, branch_cap=None, dup_budget=0):
+def explore(make, triggers, leaf, max_leaves=100000, branch_cap=None, dup_budget=0, drop_budget=0):
     """Exhaustive interleaving of `triggers` (fired in order) with delivery order of in-flight datagrams.
     make() -> fresh Scenario. leaf(scenario, path) is called at every leaf. Returns (#leaves, #nodes)."""
     stack = [[]]
@@ -114,6 +114,7 @@ def explore(make, triggers, leaf, max_leaves=100000, branch_cap=None, dup_budget
             continue
         fired = 0
         dups = 0
+        drops = 0
 
         def options():
             o = [('deliver', i) for i in range(len(sc.sim.net))]
@@ -121,11 +122,16 @@ def explore(make, triggers, leaf, max_leaves=100000, branch_cap=None, dup_budget
                 o.append(('trig',))
             if dups < dup_budget:
                 o += [('dup', i) for i, d in enumerate(sc.sim.net) if d.copy_of is None]
+            if drops < drop_budget:
+                o += [('drop', i) for i in range(len(sc.sim.net))]
             return o
 
         def apply(opt):
-            nonlocal fired, dups
-            if opt[0] == 'deliver':
+            nonlocal fired, dups, drops
+            if opt[0] == 'drop':
+                sc.drop(opt[1])
+                drops += 1
+            elif opt[0] == 'deliver':
                 sc.deliver(opt[1])
             elif opt[0] == 'dup':
                 sc.dup(opt[1])
